@@ -538,6 +538,16 @@ FurthestFailure ==
                \* (token trees: offsets are relative to the group the failure lies in; not decoded here)
                /\ (Ety \in {"rich", "simple"} /\ customs = {} /\ ~IsTree) => e.found = OffTok(e.s)
 
+(* C06 / C17: decorations (labelled, as_context, map_err) change how a failure is described, never where it lies: *)
+(* also for decorated grammars the pending error of a failed parse lies at the furthest failure of the reference   *)
+(* (whose denotation erases the decorations)                                                                        *)
+FurthestPos ==
+  (st.done /\ ~st.panicked /\ ~result.ok /\ KfClean /\ Ety # "empty"
+   /\ HasOp(G, {"label", "maperr"})
+   /\ ~HasOp(G, {"not", "recover", "nested", "pratt", "extsub", "prog"})) =>
+    LET d == DenTop IN
+    FlOf(d) # {} => (alt.some /\ alt.pos = MaxPos(FlOf(d)))
+
 (* C07: every span / slice captured in the output is well-formed: start <= end, inside the   *)
 (* input; for &str on character boundaries (an offset of some cursor)                          *)
 RECURSIVE SpansIn(_)
